@@ -49,7 +49,17 @@ def chk_align(inp):
     ref, est, rng = _pair(inp)
     ref0, est0 = copy.deepcopy(ref), copy.deepcopy(est)
     cs, only, n = inp["correct_scale"], inp["only_scale"], inp["n_to_align"]
-    r, t, s = est.align(ref, cs, only, n)
+    from evo.core import geometry as _g
+    try:
+        r, t, s = est.align(ref, cs, only, n)
+    except _g.GeometryException as e:
+        # the generated pairs determine a rotation (>= 3 random poses): Umeyama on exactly these pairs must work
+        nn_ = None if n == -1 else n
+        try:
+            _g.umeyama_alignment(est0.positions_xyz[:nn_].T, ref0.positions_xyz[:nn_].T, cs or only)
+        except _g.GeometryException:
+            return []           # genuinely degenerate data: the refusal is C03's business
+        return ["determined_from_the_first_n_pose_pairs: align refused pairs that determine the alignment (%s)" % e]
     f = []
     if ref != ref0 or not np.array_equal(ref.positions_xyz, ref0.positions_xyz):
         f.append("reference_unchanged")
